@@ -4,6 +4,7 @@ go 1.23
 
 require (
 	github.com/ctessum/geom v0.0.0
+	github.com/jonas-p/go-shp v0.1.2-0.20190401125246-9fd306ae10a6
 	github.com/paulmach/osm v0.1.1
 )
 
